@@ -50,6 +50,7 @@ VARIANT = "asan_mem"
 vbuild.VARIANTS.setdefault(VARIANT, ("gcc", ["-O1", "-g", "-fno-omit-frame-pointer", "-D" + vbuild.GUARD, "-fsanitize=address,undefined",
                                              "-fno-sanitize=shift,signed-integer-overflow,float-cast-overflow,float-divide-by-zero,integer-divide-by-zero",
                                              "-fno-sanitize-recover=all"], ["-rdynamic", "-fsanitize=address,undefined"]))
+STATE_LD = ["-fno-sanitize=shift,signed-integer-overflow,float-cast-overflow,float-divide-by-zero,integer-divide-by-zero"]
 ENV = dict(os.environ, ASAN_OPTIONS="detect_leaks=0:abort_on_error=0:allocator_may_return_null=0:max_allocation_size_mb=640:hard_rss_limit_mb=2500:detect_stack_use_after_return=0",
            UBSAN_OPTIONS="print_stacktrace=1")
 
@@ -338,7 +339,7 @@ def compare_bytes_model(model_line, impl_line):
     if not m or not i:
         return "empty"
     if m[0] == "acc":
-        return None if i == m else "model %s / real %s" % (model_line, impl_line)
+        return None if i[:3] == m[:3] else "model %s / real %s" % (" ".join(m[:3]), impl_line)
     if m[0] == "rej":
         if i[0] != "rej":
             return "model %s / real %s" % (model_line, impl_line)
@@ -416,6 +417,14 @@ def run(ctx):
     except BuildError as e:
         ctx.violation("harness-build", {"kind": "build", "error": str(e)[-2000:]}, found=False, what="harness does not compile against the current tree")
         return ctx.finish("proof", {"evaluations": 0, "distinct_nontrivial": 0, "rule": "n/a", "samples": []})
+    hx_state = None
+    try:
+        # the wrapper TU compiles marsh.c itself: repeat the variant's -fno-sanitize list AFTER the link flags (compile and link
+        # are one gcc command, the later -fsanitize=undefined would re-enable the arithmetic checks that are C14's subject)
+        hx_state = ctx.build.harness(VARIANT, "c10umstate", [os.path.join(HDIR, "umstate.c")], extra_ld=STATE_LD)
+    except BuildError as e:
+        broken.append("harness/C10/umstate.c (wrapper TU over marsh.c) does not compile against the current tree: %s" % str(e)[-300:])
+        ctx.broken.append(broken[-1])
 
     # (B,C) kernel check + audit
     broken += ctx.obligations("JanetModel.Props.C10", THEOREMS)
@@ -544,7 +553,7 @@ def run(ctx):
         import threading
 
         def _run_model():
-            model_out["um"] = ctx.model(["umsites"] + [("um " + cases[i][2][2:]).strip() for i in bpick], exe=exe)
+            model_out["um"] = ctx.model(["umsites"] + [("ums " + cases[i][2][2:]).strip() for i in bpick], exe=exe)
         model_thread = threading.Thread(target=_run_model)
         model_thread.start()
     lines = [c[2] for c in cases]
@@ -674,8 +683,24 @@ def run(ctx):
                 bstats["differ"] += 1
                 if len(bdiff) < 8:
                     bdiff.append({"generator": cases[i][0], "mutation": cases[i][1], "input": cases[i][2], "why": why})
+        # internal state: for every input the model accepts, the wrapper-TU harness (harness/C10/umstate.c, marsh.c included)
+        # runs the real unmarshal_one with its own UnmarshalState and prints the types of st.lookup[], the counts of
+        # lookup_envs / lookup_defs and the done flags; the model's `ums` line must be identical
+        sidx = [(i, ml) for i, ml in zip(pick, mo) if ml.startswith("acc")]
+        bstats["state_compared"] = 0
+        bstats["state_differ"] = 0
+        if hx_state and sidx:
+            souts, _sc = run_parallel(hx_state, ["s " + cases[i][2][2:] for i, _ in sidx])
+            for (i, ml), so in zip(sidx, souts):
+                if so is None:
+                    continue
+                bstats["state_compared"] += 1
+                if so.strip() != ml.strip():
+                    bstats["state_differ"] += 1
+                    if len(bdiff) < 8:
+                        bdiff.append({"generator": cases[i][0], "mutation": cases[i][1], "input": cases[i][2], "why": "internal state: model %s / real %s" % (ml, so)})
         if bdiff:
-            broken.append("correspondence byte-level unmarshal model / janet_unmarshal: %d differing, first %r" % (bstats["differ"] + bstats["model_fuel"], bdiff[0]))
+            broken.append("correspondence byte-level unmarshal model / janet_unmarshal: %d differing, first %r" % (bstats["differ"] + bstats["model_fuel"] + bstats["state_differ"], bdiff[0]))
             ctx.broken.append(broken[-1])
         # the model answers `oob` exactly on the inputs that a missing / short test lets the C over-read: replay the shortest
         # ones alone under ASan - that is the synthesised failing input for a broken `sites_ok`
